@@ -49,6 +49,7 @@ ASSUMPTIONS = [
 FEATS = ["deform", "area_um", "userdef1", "fl1_max", "frame", "fl1_npeaks"]
 INT_FEATS = ("fl1_max", "frame", "fl1_npeaks")
 RAW_DTYPES = [None, "int32", "int64", "uint16"]
+RAW_CHUNKS = [None, 3, 5, 7, 2]
 MODES = ["append", "replace", "reset"]
 FINDING_MEAN = "C20-mean-nan-weight"
 FINDING_BASIN = "C20-mapped-basin-summaries"
@@ -75,6 +76,16 @@ def dec_vals(np, vals, feat):
 # --------------------------------------------------------------------------
 def gen_batch(rng, n, feat, style):
     vals = []
+    if style == "uneven" and feat not in INT_FEATS:
+        # NaNs crowd in one part of the array: HDF5 chunks then hold very
+        # different numbers of valid values
+        cut = rng.randint(0, n)
+        front = rng.random() < 0.5
+        for i in range(n):
+            p = 0.8 if (i < cut) == front else 0.05
+            vals.append([1, 0] if rng.random() < p else
+                        [0, rng.randint(-80, 4000)])
+        return vals
     for _ in range(n):
         if feat in INT_FEATS:
             vals.append([0, 8 * rng.choice([rng.randint(0, 5000),
@@ -367,12 +378,17 @@ def gen_raw_case(rng):
     float/int/uint dtype), then copied (compress/repack path: rtdc_copy
     completes the summaries), copied again, or appended to by the writer"""
     feat = rng.choice(FEATS + list(INT_FEATS))
-    n = rng.choice([1, 2, 2, 3, 4, 7, 12])
-    style = rng.choice(["clean", "some", "many", "inf"])
+    n = rng.choice([1, 2, 3, 4, 7, 8, 11, 12, 16, 23])
+    style = rng.choice(["clean", "some", "many", "inf", "uneven", "uneven"])
     dt = rng.randrange(len(RAW_DTYPES)) if feat in INT_FEATS else 0
+    # explicit small HDF5 chunks: the dataset spans several chunks, the last
+    # one usually partial
+    dt += 4 * rng.choice([0, 1, 1, 2, 3, 4])
     ops = [[4, dt, gen_batch(rng, n, feat, style)]]
     r = rng.random()
-    if r < 0.4:
+    if r < 0.25:
+        pass          # read as written: no stored summaries at all
+    elif r < 0.4:
         ops.append([2, 0, []])
     elif r < 0.6:
         ops += [[2, 0, []], [2, 0, []]]
@@ -382,7 +398,9 @@ def gen_raw_case(rng):
             ops.append([1, 0, gen_batch(rng, rng.randint(1, 5), feat, style)])
         if rng.random() < 0.6:
             ops += [[3, rng.randint(1, 7), []], [2, 0, []]]
-    return dict(feat=feat, ops=ops, shape="raw")
+    return dict(feat=feat, ops=ops, shape="raw",
+                read_first=rng.random() < 0.2,
+                qorder=rng.sample([0, 1, 2], 3))
 
 
 def gen_case(rng, thorough=False):
@@ -394,7 +412,8 @@ def gen_case(rng, thorough=False):
     feat = rng.choice(FEATS + ["deform", "deform"])
     ops = []
     nsess = rng.choice([1, 1, 2, 2, 3])
-    style0 = rng.choice(["clean", "some", "some", "many", "many", "inf"])
+    style0 = rng.choice(["clean", "some", "some", "many", "many", "inf",
+                         "uneven"])
     first = True
     for si in range(nsess):
         copied = False
@@ -420,7 +439,8 @@ def gen_case(rng, thorough=False):
                 style = "allnan"
             elif r < 0.3:
                 style = "clean"
-            n = rng.choice([1, 1, 2, 3, 4, 7, 12] + ([40] if thorough else []))
+            n = rng.choice([1, 1, 2, 3, 4, 7, 12, 13] +
+                           ([40] if thorough else []))
             ops.append([1, 0, gen_batch(rng, n, feat, style)])
         first = False
     # the end of the history: as written, copied, with summaries removed, or
@@ -434,7 +454,10 @@ def gen_case(rng, thorough=False):
         ops += [[3, rng.randint(1, 7), []], [2, 0, []]]
     elif r < 0.5:
         ops += [[3, rng.randint(1, 7), []], [2, 0, []], [2, 0, []]]
-    return dict(feat=feat, ops=ops)
+    # writer.CHUNK_SIZE_BYTES=80: datasets of the writer get chunks of 10
+    return dict(feat=feat, ops=ops, csb=rng.choice([None, 80, 80]),
+                read_first=rng.random() < 0.2,
+                qorder=rng.sample([0, 1, 2], 3))
 
 
 # --------------------------------------------------------------------------
@@ -452,12 +475,19 @@ def enc_f(np, v):
     return [0, int(k)] if k == int(k) else [0, k]
 
 
-def summaries(np, fobj):
-    """(reported, reference) of a scalar feature object"""
+def summaries(np, fobj, read_first=False, order=(2, 0, 1)):
+    """(reported, reference) of a scalar feature object; the summaries are
+    asked BEFORE the feature data are touched (unless read_first), in the
+    given order"""
+    if read_first:
+        np.asarray(fobj[:])
+    with np.errstate(all="ignore"):
+        rep = [None, None, None]
+        for w in order:
+            rep[w] = float(getattr(fobj, ("min", "max", "mean")[w])())
     raw = np.asarray(fobj[:])
     arr = np.asarray(raw, dtype=np.float64)
     with np.errstate(all="ignore"):
-        rep = [float(fobj.min()), float(fobj.max()), float(fobj.mean())]
         if len(arr):
             ref = [float(np.nanmin(arr)), float(np.nanmax(arr)),
                    float(np.nanmean(arr))]
@@ -474,9 +504,9 @@ def close_to(np, a, b, rtol=RTOL):
     return abs(a - b) <= rtol * max(abs(a), abs(b)) + 1e-12
 
 
-def check_summaries(np, fobj, what):
+def check_summaries(np, fobj, what, read_first=False):
     """property oracle for one feature object; returns list of (key, desc)"""
-    rep, ref = summaries(np, fobj)
+    rep, ref = summaries(np, fobj, read_first)
     fails = []
     # float32 data (ancillary features): the stored mean was accumulated in
     # float32, the reference in float64
@@ -508,6 +538,11 @@ def run_impl(case, scratch, keep=False):
     nwrites = 0
     hasnan = False
     paths = [path]
+    from dclab.rtdc_dataset import writer as W
+    old_csb = W.CHUNK_SIZE_BYTES
+    if case.get("csb"):
+        # scalar datasets of the writer then have chunks of 10 events
+        W.CHUNK_SIZE_BYTES = case["csb"]
     try:
         for tg, a, data in case["ops"]:
             if tg == 0:
@@ -531,12 +566,14 @@ def run_impl(case, scratch, keep=False):
                     hw.__exit__(None, None, None)
                     hw = None
                 arr = dec_vals(np, data, feat)
-                if RAW_DTYPES[a]:
-                    arr = arr.astype(RAW_DTYPES[a])
+                if RAW_DTYPES[a % 4]:
+                    arr = arr.astype(RAW_DTYPES[a % 4])
                 hasnan = hasnan or any(t == 1 for t, _ in data)
+                chunks = RAW_CHUNKS[(a // 4) % len(RAW_CHUNKS)]
                 with h5py.File(path, "w") as h5:
                     h5.require_group("events").create_dataset(
-                        feat, data=arr, maxshape=(None,), chunks=True)
+                        feat, data=arr, maxshape=(None,),
+                        chunks=(chunks,) if chunks else True)
                 with RTDCWriter(path, mode="append") as hwr:
                     hwr.store_metadata(gen.base_meta(with_fl=True,
                                                      run_id="c20-rid"))
@@ -571,8 +608,13 @@ def run_impl(case, scratch, keep=False):
         if present:
             with dclab.new_dataset(path) as ds:
                 fobj = ds[feat]
-                rep, ref = summaries(np, fobj)
+                rep, ref = summaries(np, fobj, case.get("read_first", False),
+                                     case.get("qorder", (2, 0, 1)))
                 fails += check_summaries(np, fobj, "file")
+                # a second route: a new feature object, data loaded first
+                with dclab.new_dataset(path) as ds2:
+                    fails += [("route2-" + k, d) for k, d in check_summaries(
+                        np, ds2[feat], "file (data read first)", True)]
                 n = len(fobj)
                 ds.filter.manual[:] = (np.arange(n) % 2 == 0)
                 ds.apply_filter()
@@ -611,6 +653,7 @@ def run_impl(case, scratch, keep=False):
                                   "(%s): %s" % (type(fb).__name__, e)))
         return obs, fails, dict(nwrites=nwrites, hasnan=hasnan)
     finally:
+        W.CHUNK_SIZE_BYTES = old_csb
         if hw is not None:
             try:
                 hw.close()
